@@ -1104,6 +1104,26 @@ def history_search(ctx, n_hist, n_ops):
                     add("derived:" + b, f"after `{op}`: inconsistent {b}", case)
                 for b in expected_after(op, before, m):
                     add("renormalisation:" + op["k"], f"after `{op}`: {b}", case)
+                # (4b) set_arg_bounds(check_args=True): a value outside the new bounds is replaced by the documented default
+                if op["k"] == "arg_bounds":
+                    b = op["bs"][0]
+                    a = b["arg"]
+                    old = before["var" if a == "var" else ("opt:" + a if "opt:" + a in before else a)]
+                    olds = old if isinstance(old, list) else [old]
+                    lo = -math.inf if b["lo"] is None else b["lo"]
+                    hi = math.inf if b["hi"] is None else b["hi"]
+                    typ = b["typ"] or "cc"
+                    was_out = any(not ((v >= lo if typ[0] == "c" else v > lo) and (v <= hi if typ[1] == "c" else v < hi)) for v in olds)
+                    new = after["var" if a == "var" else ("opt:" + a if "opt:" + a in after else a)]
+                    if was_out:
+                        want = default_from(b)
+                        news = new if isinstance(new, list) else [new]
+                        if a == "anis" and m.latlon:
+                            pass   # lat-lon keeps the spatial ratios at 1
+                        elif not all(vclose(float(v), float(want)) for v in news):
+                            add("set-arg-bounds-default:" + a, f"after `{op}`: {a} = {new}, documented default {want}", case)
+                    elif not vclose(new, old):
+                        add("set-arg-bounds-changed-valid-value:" + a, f"after `{op}`: {a} {old} -> {new}", case)
                 # (5) an assignment changes nothing but its own parameter and the documented couplings
                 if op["k"] != "arg_bounds":
                     allowed = frame_allowed(op["k"], op.get("name"), cname)
@@ -1150,7 +1170,10 @@ def boundary_search(ctx):
                         warnings.simplefilter("ignore")
                         try:
                             m = get_class(cname)(dim=dim, latlon=latlon, temporal=temporal)
-                        except ValueError:   # fixed-dimension user class on a lat-lon configuration
+                        except ValueError as ex:
+                            if not (cname.startswith("UserFix") and latlon):   # fixed-dimension class on lat-lon: documented error
+                                viol.append({"key": "default-model-rejected:" + cname, "what": f"{cname}(dim={dim}, latlon={latlon}, "
+                                             f"temporal={temporal}) raises {ex}", "case": {"cls": cname, "dim": dim}})
                             continue
                     ev += 1
                     for arg, b in m.arg_bounds.items():
